@@ -1,11 +1,15 @@
 import Capella.Driver.Util
 import Capella.Model.Reqif
+import Capella.Model.ReqifXml
 /-! Line-protocol driver for the ReqIF exporter model (C20).
 
 ops:
 * `export`  : `{"module": <module>, "xhtml": [[raw, converted|null], …]}` → `{"err": "assertion"|"parser"}` or the document
 * `decide`  : `{"target": null|"<path>", "compress": null|true|false}` → `{"compress": bool, "old": bool}`
 * `tables`  : the standard attribute tables of the model
+* `tree`    : `{"module", "xhtml", "env": {default_comment, now, tool_id, source_tool_id}, "metadata": {comment, title, creation_time}}`
+              → `{"err": …}` or `{"tree": <element>, "idents": […], "refs": […]}`; an element is
+              `{"t": tag, "a": [[name, value], …], "x": text|null, "c": [<element>, …]}` or `{"raw": canonical xhtml}`
 -/
 namespace Capella.Driver.Reqif
 open Lean Capella.Driver Capella.Reqif
@@ -147,6 +151,23 @@ def jDoc (d : Doc) : Json :=
     ("defs", Json.arr (d.defs.map jid).toArray),
     ("refs", Json.arr (d.refs.map jid).toArray)]
 
+def optStr (j : Json) (k : String) : Option Str :=
+  match optObj j k with
+  | some (.str s) => some s.toList
+  | _ => none
+
+partial def jXml : Xml → Json
+  | .raw s => Json.mkObj [("raw", jstr s)]
+  | .el t a x c => Json.mkObj [("t", jstr t), ("a", Json.arr (a.map fun p => Json.arr #[jstr p.1, jstr p.2]).toArray),
+      ("x", jopt x), ("c", Json.arr (c.map jXml).toArray)]
+
+def parseEnv (j : Json) : Except String Env := do
+  pure { defaultComment := ← getStr j "default_comment", now := ← getStr j "now", toolId := ← getStr j "tool_id",
+         sourceToolId := ← getStr j "source_tool_id" }
+
+def parseMetadata (j : Json) : Metadata :=
+  { comment := optStr j "comment", title := optStr j "title", creationTime := optStr j "creation_time" }
+
 def handle (op : String) (j : Json) : Except String Json := do
   match op with
   | "export" =>
@@ -156,6 +177,15 @@ def handle (op : String) (j : Json) : Except String Json := do
     | .error .assertion => pure (Json.mkObj [("err", "assertion")])
     | .error .parser => pure (Json.mkObj [("err", "parser")])
     | .ok d => pure (Json.mkObj [("doc", jDoc d), ("dfs", jstrs (m.dfs.map (·.uuid)))])
+  | "tree" =>
+    let m ← parseModule (← j.getObjVal? "module")
+    let x ← parseXhtml j
+    let e ← parseEnv (← j.getObjVal? "env")
+    let md := parseMetadata ((optObj j "metadata").getD (Json.mkObj []))
+    match exportXml x e md m with
+    | .error .assertion => pure (Json.mkObj [("err", "assertion")])
+    | .error .parser => pure (Json.mkObj [("err", "parser")])
+    | .ok t => pure (Json.mkObj [("tree", jXml t), ("idents", jstrs t.idents), ("refs", jstrs t.refTexts)])
   | "decide" =>
     let t : Target := match optObj j "target" with
       | some (.str p) => .path p.toList
